@@ -65,6 +65,8 @@ def gen_case(rng):
         if x < 0.6 or not open_:
             eid += 1
             extra = " args=%s" % rng.choice(["a", "a", "b"]) if r in hs_res else ""
+            if rng.random() < 0.25:
+                extra += " rtype=%s" % rng.choice(["web", "rpc", "cache", "common"])   # the resource classification never changes the accounting (seeds C01-e, C04-e)
             ops.append("build e=%d res=%s batch=%d dir=%s%s" % (eid, r, rng.choice([1, 1, 1, 2, 3, 5]), rng.choice(["in", "in", "out"]), extra))
             open_.append(eid)
         else:
